@@ -5,6 +5,8 @@ K2  the collecting loops never stop early; errors are sorted and returned togeth
 K3  const expressions are evaluated with wrapping add / sub and never trap
 K4  const definitions are bound in an order that does not depend on a hash seed (cross-reference to C06-D1)
 K5  min / max folds start from the identity of the constant's type
+K6  every const definition that is resolved (or recorded as a size) is entered into the table that the resolver of later
+    const definitions reads, on every path of the definition loop (paths pruned by the definition's type)
 """
 import re
 
@@ -21,7 +23,9 @@ LEVEL_TEXT = (
     "constants, resolve_const_expr_*), the collecting loops have no early exit, and the error vector is sorted and returned "
     "before the first use. 'min/max/+/- in wrapping arithmetic of the constant's type': the three instantiations of the "
     "const evaluator contain no overflow trap, their Add/Sub arms go through wrapping_add/wrapping_sub, and the Min/Max "
-    "accumulators start from the type's MAX/MIN. Definition order must not follow hash order (K4). Not decided: equivalence "
+    "accumulators start from the type's MAX/MIN. Definition order must not follow hash order (K4). 'Consts act as substitution' has one clause visible in the shape of the "
+    "definition loops: a resolved definition must be entered into the table the later definitions are resolved against, on every "
+    "path (K6; found a genuine defect: only usize consts were entered). Not decided: equivalence "
     "with literal substitution for all programs and inputs (that is C01's question), array sizes and trip counts following "
     "the constants.")
 LEVEL_NOTE = "Trusted: rustc MIR (debug profile keeps overflow Asserts visible); Literal::is_of_type is the gate (its own soundness is C09)."
@@ -30,7 +34,7 @@ EXPLANATION = ("K1/K2 work on the MIR of TypedProgram::compile_with_constants: E
                "by the `errs.is_empty()` test that follows the collection. K3/K5 inspect resolve_const_expr_{usize,unsigned,signed} "
                "pruned to one ConstExprEnum variant.")
 NOT_DECIDED = "equivalence of compiling with constants and compiling the substituted program (semantic, C01); shapes (array sizes, trip counts, parties) following the constants"
-ASSUMPTIONS = []
+ASSUMPTIONS = ["K6: resolve_const_expr_signed is reached only for definitions of a signed type, the other two resolvers only for unsigned ones (numeric const expressions of another type do not pass the type checker)"]
 
 CWC = ("compile_with_constants", "&ast::Program<ast::Type>")
 RESOLVERS = ["compile::resolve_const_expr_usize", "compile::resolve_const_expr_unsigned", "compile::resolve_const_expr_signed"]
@@ -287,5 +291,61 @@ def rule_k5(ctx):
     return res
 
 
+def rule_k6(ctx):
+    """A const definition whose value was resolved is visible to the const definitions after it."""
+    res = RuleResult("K6", "every resolved const definition is entered into the table later const expressions are resolved against")
+    f, body = _cwc(ctx)
+    n = 0
+    for fid in RESOLVERS:
+        calls = [(b, t) for b, t in body.calls() if mir.callee(t) == fid]
+        for rb, rt in calls:
+            table = {(r, tuple(p)) for (r, p) in body.trace_operand(rt["args"][1])}
+            loops = [lp for lp in body.loops() if rb in lp["body"]]
+            if not loops:
+                continue
+            lp = min(loops, key=lambda l: len(l["body"]))
+            n += 1
+            ins = [(b, t) for b, t in body.calls() if b in lp["body"] and mir.last_seg(mir.callee(t) or "") == "insert" and "HashMap" in (mir.callee(t) or "")]
+            mine = {b for b, t in ins if {(r, tuple(p)) for (r, p) in body.trace_operand(t["args"][0])} & table}
+            if not mine:
+                res.bad(Finding("K6", f["id"], "resolved consts are never entered into the resolution table",
+                                "the loop resolves const definitions against a table it never extends: a const defined in terms of an earlier const cannot be resolved", rt["sp"]))
+                continue
+
+            # the resolver call sits under a test of the definition's type: paths are explored under that assumption
+            assume = {}
+            for sw in lp["body"]:
+                info = body.switch_info(sw)
+                if info and info[0] and info[2] == "ast::Type" and body.dominates(sw, rb):
+                    # the signed resolver is used for definitions of a signed type, the other two for unsigned ones
+                    # (numeric const expressions of any other type do not pass the type checker)
+                    assume[info[0]] = "Signed" if fid.endswith("_signed") else "Unsigned"
+            psucc = body.pruned_succ(assume) if assume else (lambda b: body.succs(b))
+
+            def inloop(b, lp=lp, psucc=psucc):
+                return [x for x in psucc(b) if x in lp["body"] and not body.blocks[x]["cleanup"]]
+            latches = [b for b in lp["body"] if lp["header"] in body.succs(b)]
+            # (a) a resolved value always reaches the table
+            w = body.path(rb, latches, blocked=mine, succ=inloop)
+            # (b) a definition recorded in any other table (the sizes) is also recorded in this one
+            others = [b for b, t in ins if b not in mine]
+            w2 = None
+            for ob in others:
+                p1 = body.path(lp["header"], [ob], blocked=mine, succ=inloop)
+                p2 = body.path(ob, latches, blocked=mine, succ=inloop)
+                if p1 and p2:
+                    w2 = p1 + p2[1:]
+            if w or w2:
+                res.bad(Finding("K6", f["id"], "a const definition is recorded without entering the resolution table",
+                                "a path through the const-definition loop records a definition (blocks %s) but does not insert it into the table that %s reads: later const definitions "
+                                "that mention it hit the 'existence checked during type checking' panic" % (w or w2, mir.last_seg(fid)), rt["sp"]))
+            else:
+                res.ok({"resolver": mir.last_seg(fid), "verdict": "every path that resolves or records a definition inserts it into the resolver's table",
+                        "inserts": len(mine), "other_tables": len(others), "assuming": {str(k): v for k, v in assume.items()}})
+    if n < 1 and not res.findings:
+        raise AnchorMissing("K6: compile_with_constants no longer resolves const definitions in a loop")
+    return res
+
+
 def run(ctx):
-    return ctx.run_rules([rule_k1, rule_k2, rule_k3, rule_k4, rule_k5])
+    return ctx.run_rules([rule_k1, rule_k2, rule_k3, rule_k4, rule_k5, rule_k6])
